@@ -1,6 +1,7 @@
 package props
 
 import (
+	"go/constant"
 	"go/token"
 	"golang.org/x/tools/go/ssa"
 	"strings"
@@ -411,6 +412,9 @@ func edgeFactsD(e edgeCond, depth int) []condFact {
 	cnd, succ := e.Norm()
 	truth := succ == 0
 	out := []condFact{{cnd, truth}}
+	if depth <= 3 {
+		out = append(out, classifierFacts(cnd, truth, depth)...)
+	}
 	phi, ok := cnd.(*ssa.Phi)
 	if !ok || depth > 3 {
 		return out
@@ -572,4 +576,55 @@ func ownerName(p *core.Prog, fn *ssa.Function) string {
 		cur = owner
 	}
 	return core.FuncName(cur)
+}
+
+// classifierFacts: the branch compares the result of a classifying helper of
+// the package with a constant (`switch kindOf(tok) { case kindWildcard:`).
+// When exactly one return of the helper yields that constant (and every other
+// return yields a different constant), taking the "equal" edge establishes
+// what holds on the way to that return - facts about the helper's own values
+// (its parameters), useful to rules that look at the shape of the comparison
+// only (`tok[0] == '>'`).
+func classifierFacts(cnd ssa.Value, truth bool, depth int) []condFact {
+	bo, ok := cnd.(*ssa.BinOp)
+	if !ok || (bo.Op != token.EQL && bo.Op != token.NEQ) || (bo.Op == token.EQL) != truth {
+		return nil
+	}
+	x, y := bo.X, bo.Y
+	if _, isC := x.(*ssa.Const); isC {
+		x, y = y, x
+	}
+	k, isK := y.(*ssa.Const)
+	call, isCall := x.(*ssa.Call)
+	if !isK || !isCall || k.Value == nil {
+		return nil
+	}
+	cal := call.Common().StaticCallee()
+	if cal == nil || len(cal.Blocks) == 0 || call.Parent() == nil || cal.Pkg != call.Parent().Pkg || cal.Signature.Results().Len() != 1 {
+		return nil
+	}
+	type hit struct {
+		ret *ssa.Return
+		src valSrc
+	}
+	var hits []hit
+	for _, ret := range core.Returns(cal) {
+		for _, src := range phiSources(ret.Results[0]) {
+			c, isC := src.V.(*ssa.Const)
+			if !isC || c.Value == nil || c.Value.Kind() != k.Value.Kind() {
+				return nil // a return that may or may not yield the constant
+			}
+			if constant.Compare(c.Value, token.EQL, k.Value) {
+				hits = append(hits, hit{ret, src})
+			}
+		}
+	}
+	if len(hits) != 1 {
+		return nil
+	}
+	var out []condFact
+	for _, e2 := range srcEdges(hits[0].ret, hits[0].src) {
+		out = append(out, edgeFactsD(e2, depth+1)...)
+	}
+	return out
 }
